@@ -167,7 +167,8 @@ impl PartialEq for Tok {
     fn eq(&self, other: &Tok) -> bool {
         callback();
         ledger().eq_calls += 1;
-        self.val == other.val
+        // a payload that starts with "nan" behaves like a floating-point NaN: equal to nothing, itself included
+        self.val == other.val && !self.val.starts_with("nan")
     }
 }
 
